@@ -794,19 +794,15 @@ func c19One(rep *monitor.Report, min, desired int64, want, foreignAt, failK int)
 		}
 		return
 	}
-	// expected calls: members in request order, stopping at the outsider or after the failing call
-	var expect []string
-	stopErr := ""
+	// Calls must go to the members in request order, never past the outsider and never past a failing call. With an
+	// outsider in the list the statement leaves it open whether it is noticed when its turn comes (the members before
+	// it are terminated first) or before any call is made (nothing is terminated): both end with not-in-group.
+	var before []string // members preceding the outsider (all of them when there is none)
 	for i, n := range req {
 		if i == foreignAt {
-			stopErr = "not-in-group"
 			break
 		}
-		expect = append(expect, instanceOfPID(n.Spec.ProviderID))
-		if failK > 0 && len(expect) == failK {
-			stopErr = "cloud-error"
-			break
-		}
+		before = append(before, instanceOfPID(n.Spec.ProviderID))
 	}
 	got := make([]string, len(terms))
 	for i, e := range terms {
@@ -815,31 +811,46 @@ func c19One(rep *monitor.Report, min, desired int64, want, foreignAt, failK int)
 			rep.Violate(P, "terminate-without-decrement", "%s: %s", desc, e)
 		}
 	}
-	if strings.Join(got, ",") != strings.Join(expect, ",") {
+	if len(got) > len(before) || strings.Join(got, ",") != strings.Join(before[:len(got)], ",") {
 		key := "wrong-instances-terminated"
-		if len(got) > len(expect) {
+		if len(got) > len(before) {
 			key = "calls-continue-after-stop"
 		}
-		rep.Violate(P, key, "%s: terminate calls %v, expected %v", desc, got, expect)
+		rep.Violate(P, key, "%s: terminate calls %v, allowed: a prefix of %v", desc, got, before)
+		return
 	}
 	if int64(len(terms)) > desired-min {
 		rep.Violate(P, "more-terminations-than-headroom", "%s: %d terminate calls", desc, len(terms))
 	}
-	switch stopErr {
-	case "not-in-group":
-		if _, ok := err.(*cloudprovider.NodeNotInNodeGroup); !ok {
-			rep.Violate(P, "outsider-not-reported", "%s: error is %T %v, expected NodeNotInNodeGroup", desc, err, err)
+	_, notInGroup := err.(*cloudprovider.NodeNotInNodeGroup)
+	switch {
+	case failK > 0 && len(got) >= failK:
+		// the failing call was issued: the request ends there with the cloud's error
+		if len(got) > failK {
+			rep.Violate(P, "calls-continue-after-stop", "%s: terminate calls %v go on after the failed call %d", desc, got, failK)
 		}
-	case "cloud-error":
 		if err == nil {
 			rep.Violate(P, "cloud-error-swallowed", "%s: returned nil although a terminate call failed", desc)
 		}
-		if _, ok := err.(*cloudprovider.NodeNotInNodeGroup); ok {
+		if notInGroup {
 			rep.Violate(P, "cloud-error-misreported", "%s: a failed terminate call is reported as not-in-group (would stop the controller)", desc)
+		}
+	case foreignAt >= 0:
+		if !notInGroup {
+			rep.Violate(P, "outsider-not-reported", "%s: error is %T %v, expected NodeNotInNodeGroup", desc, err, err)
+		}
+		if len(got) != 0 && len(got) != len(before) {
+			rep.Violate(P, "wrong-instances-terminated", "%s: terminate calls %v: neither none (outsider noticed up front) nor all members before it %v", desc, got, before)
+		}
+		if len(got) == 0 && len(before) > 0 {
+			rep.Covered(P, "delnodes:outsider-noticed-before-any-call")
 		}
 	default:
 		if err != nil {
 			rep.Violate(P, "clean-delete-failed", "%s: %v", desc, err)
+		}
+		if len(got) != len(before) {
+			rep.Violate(P, "wrong-instances-terminated", "%s: terminate calls %v, expected %v", desc, got, before)
 		}
 	}
 }
